@@ -4,7 +4,7 @@
 // point (mid-miniblock, at the miniblock edge, after the first value) must give the same values as a single read.
 use super::*;
 
-//@fn column/encoding/delta_binary_packed.rs DeltaBinaryPackedValueDecoder::<i64>::{try_new, read, load_next_block}
+//@fn column/encoding/delta_binary_packed.rs DeltaBinaryPackedValueDecoder::<i64>::{try_new, read, load_next_block, try_into_cursor}
 
 fn uleb(mut v: u64, out: &mut Vec<u8>) {
     loop {
@@ -98,6 +98,164 @@ fn c10_delta_binary_packed__values_and_split_reads__nat() {
         }
     }
     assert!(checked > 1000);
+}
+
+// C19 / C16 (bounded stand-in, native; NOT a proof): damaged DELTA_BINARY_PACKED streams.  The stream header (block size,
+// miniblock count, total value count, first value) and the block headers (minimum delta, one bit width per miniblock)
+// come from the file.  On every member of the family below `try_new`, `read` (of up to 300 values, in one and in two
+// calls) and `try_into_cursor` return Ok or Err: no panic (division by a zero miniblock count, index past the bit-width
+// table, arithmetic overflow, the debug assertions of the UNCHECKED cursor methods, i.e. reads past the end of the
+// page buffer), no allocation sized by a header field alone, and the calls return.
+//   family: 6 valid streams (1, 2, 33, 40, 129, 140 values)  x  { every truncation;  every byte of the first 16 replaced by
+//   each of 0x00 0x01 0x20 0x7f 0x80 0xff }  +  hand-written headers: miniblock count 0, block size 0, miniblock count >
+//   block size, block size not a multiple of the miniblock count, block size = miniblock count = 2^40 / 2^62, total value
+//   count 2^50 with no data, bit widths 65 / 255, a partially read miniblock of width 255 followed by nothing.
+fn dlt_run_stream(stream: &[u8], split: bool) -> std::result::Result<(), String> {
+    let s = stream.to_vec();
+    std::panic::catch_unwind(move || {
+        for wide in [true, false] {
+            // i64 and i32 instantiations
+            if wide {
+                dlt_drive::<i64>(&s, split);
+            } else {
+                dlt_drive::<i32>(&s, split);
+            }
+        }
+    })
+    .map_err(|p| p.downcast_ref::<String>().cloned().or_else(|| p.downcast_ref::<&str>().map(|s| s.to_string())).unwrap_or_default())
+}
+
+fn dlt_drive<T>(s: &[u8], split: bool)
+where
+    T: FromPrimitive + Zero + WrappingAdd + Copy + BitPackEncodeable + Debug,
+{
+    let mut dec = match DeltaBinaryPackedValueDecoder::<T>::try_new(ReadCursor::from_slice(s)) {
+        Ok(d) => d,
+        Err(_) => return,
+    };
+    let n = dec.total_values().min(300);
+    let mut out = vec![T::zero(); n];
+    let ok = if split && n >= 2 {
+        let (a, b) = out.split_at_mut(n / 2);
+        dec.read(a).is_ok() && dec.read(b).is_ok()
+    } else {
+        dec.read(&mut out).is_ok()
+    };
+    if ok {
+        let _ = dec.try_into_cursor();
+    } else {
+        // a caller that ignores nothing still may ask for the cursor of a decoder that stopped early
+        let _ = dec.try_into_cursor();
+    }
+}
+
+#[test]
+fn c19_delta_binary_packed__damaged_streams_ok_or_err_never_panic__nat() {
+    let mut family: Vec<(String, Vec<u8>)> = Vec::new();
+    for n in [1usize, 2, 33, 40, 129, 140] {
+        let values: Vec<i64> = (0..n as i64).map(|i| if i % 3 == 0 { i * 1000 } else { -i * 7 }).collect();
+        let stream = encode(&values);
+        for cut in 0..stream.len() {
+            family.push((format!("valid stream of {n} values truncated to {cut} bytes"), stream[..cut].to_vec()));
+        }
+        for pos in 0..stream.len().min(16) {
+            for b in [0x00u8, 0x01, 0x20, 0x7f, 0x80, 0xff] {
+                let mut s = stream.clone();
+                s[pos] = b;
+                family.push((format!("valid stream of {n} values with byte {pos} set to {b:#04x}"), s));
+            }
+        }
+    }
+    let hdr = |block: u64, minis: u64, total: u64, rest: &[u8]| {
+        let mut out = Vec::new();
+        uleb(block, &mut out);
+        uleb(minis, &mut out);
+        uleb(total, &mut out);
+        uleb(zigzag(5), &mut out);
+        out.extend_from_slice(rest);
+        out
+    };
+    let body = [2u8, 3, 3, 3, 3, 0xaa, 0xbb, 0xcc, 0xdd, 0xee, 0xff, 0x11, 0x22, 0x33, 0x44, 0x55, 0x66];
+    family.push(("miniblock count 0".into(), hdr(128, 0, 10, &body)));
+    family.push(("block size 0".into(), hdr(0, 4, 10, &body)));
+    family.push(("block size 0, miniblock count 0".into(), hdr(0, 0, 10, &body)));
+    family.push(("miniblock count > block size".into(), hdr(4, 128, 10, &body)));
+    family.push(("block size not a multiple of the miniblock count".into(), hdr(128, 5, 10, &body)));
+    family.push(("block size = miniblock count = 2^40".into(), hdr(1 << 40, 1 << 40, 10, &body)));
+    family.push(("block size = miniblock count = 2^62".into(), hdr(1 << 62, 1 << 62, 10, &body)));
+    family.push(("block size 2^62, one miniblock".into(), hdr(1 << 62, 1, 10, &body)));
+    family.push(("block size 2^63, two miniblocks, 3 values".into(), hdr(1 << 63, 2, 3, &body)));
+    family.push(("total value count 2^50, no data".into(), hdr(128, 4, 1 << 50, &[])));
+    family.push(("total value count 2^50, header of one block only".into(), hdr(128, 4, 1 << 50, &[2, 1, 1, 1, 1])));
+    family.push(("bit width 65".into(), hdr(128, 4, 10, &[2, 65, 65, 65, 65, 1, 2, 3, 4, 5, 6, 7, 8, 9, 10, 11, 12, 13, 14, 15, 16])));
+    family.push(("bit width 255".into(), hdr(128, 4, 10, &[2, 255, 255, 255, 255, 1, 2, 3, 4, 5, 6, 7, 8, 9, 10])));
+    family.push(("bit width 64, three values, nothing after them".into(), hdr(128, 4, 4, &{
+        let mut v = vec![2u8, 64, 64, 64, 64];
+        v.extend_from_slice(&[7u8; 24]);
+        v
+    })));
+    family.push(("bit width 8, partially read miniblock with no padding".into(), hdr(128, 4, 4, &[2, 8, 8, 8, 8, 1, 2, 3])));
+    assert!(family.len() > 1000);
+    for (what, stream) in &family {
+        for split in [false, true] {
+            if let Err(msg) = dlt_run_stream(stream, split) {
+                panic!(
+                    "damaged DELTA_BINARY_PACKED stream crashed the decoder ({what}{}): {}",
+                    if split { ", read in two calls" } else { "" },
+                    msg.lines().next().unwrap_or("")
+                );
+            }
+        }
+    }
+}
+
+// C19 / C16 (bounded: streams of <= 7 bytes, Kani / CBMC on the real code incl. the unsafe cursor): on ARBITRARY bytes
+// `DeltaBinaryPackedValueDecoder::<i32>::try_new` (stream header, first block header, bit-width table) returns Ok or Err:
+// no panic, no arithmetic trap (division by a zero miniblock count), no read past the slice (CBMC pointer checks), and
+// the bit-width table it allocates is never longer than the input.
+fn stub_format_d(_: std::fmt::Arguments<'_>) -> String {
+    String::new()
+}
+fn stub_backtrace_capture_d() -> std::backtrace::Backtrace {
+    std::backtrace::Backtrace::disabled()
+}
+fn stub_dberror_new_d(msg: impl Into<String>) -> glaredb_error::DbError {
+    std::mem::forget(msg);
+    unsafe { std::mem::transmute::<usize, glaredb_error::DbError>(16usize) }
+}
+fn stub_with_field_d<K, V>(e: glaredb_error::DbError, key: K, value: V) -> glaredb_error::DbError
+where
+    K: Into<String>,
+    V: glaredb_error::ErrorFieldValue + 'static,
+{
+    std::mem::forget(key);
+    std::mem::forget(value);
+    e
+}
+
+#[kani::proof]
+#[kani::unwind(9)]
+#[kani::stub(std::fmt::format, stub_format_d)]
+#[kani::stub(std::backtrace::Backtrace::capture, stub_backtrace_capture_d)]
+#[kani::stub(glaredb_error::DbError::new, stub_dberror_new_d)]
+#[kani::stub(glaredb_error::DbError::with_field, stub_with_field_d)]
+fn c19_delta_header__arbitrary_bytes_ok_or_err_no_oob__bnd() {
+    const N: usize = 7;
+    let buf: [u8; N] = kani::any();
+    let len: usize = kani::any();
+    kani::assume(len <= N);
+    kani::cover!(len == N && buf[1] == 0);
+    kani::cover!(len == N && buf[0] == 4 && buf[1] == 2 && buf[2] == 3);
+    let r = DeltaBinaryPackedValueDecoder::<i32>::try_new(ReadCursor::from_slice(&buf[..len]));
+    match r {
+        Ok(dec) => {
+            assert!(dec.mini_block_bit_widths.len() <= len, "bit-width table longer than the input");
+            assert!(dec.cursor.remaining() <= len, "cursor moved backwards / past the end");
+            assert!(dec.mini_block_count >= 1 && dec.values_per_mini_block >= 1, "decoder accepted a header without miniblocks");
+            std::mem::forget(dec);
+        }
+        Err(e) => std::mem::forget(e),
+    }
 }
 
 include!("/verif/build/kani-gen/pq_delta.playback.rs");
